@@ -298,6 +298,26 @@ func (e *Env) Restart() {
 	}
 }
 
+// RestartWithout starts a new Witness object over the same store whose
+// configuration no longer names the given log IDs (an operator dropped them).
+func (e *Env) RestartWithout(ids ...string) {
+	known := map[string]witness.LogInfo{}
+	for id, li := range e.known {
+		known[id] = li
+	}
+	for _, id := range ids {
+		delete(known, id)
+	}
+	w, err := witness.New(witness.Opts{Persistence: e.wrapped, Signers: e.Sigs, KnownLogs: known})
+	if err != nil {
+		panic(fmt.Sprintf("witness.New (restart with a reduced configuration): %v", err))
+	}
+	e.W = w
+	if e.OnRestart != nil {
+		e.OnRestart(e)
+	}
+}
+
 // Close releases the store.
 func (e *Env) Close() {
 	if e.DB != nil {
